@@ -152,7 +152,7 @@ def main(tier, seed):
               "triples: transitive.")
     run.functions = FUNCS
     hs = harnesses(tier, seed)
-    timeout = 15 if tier == "quick" else 120
+    timeout = 15 if tier == "quick" else 45
     run.assumptions = ["shapes enumerated over the constructors named in the property (atoms vs quoted atoms, Constant vs Term, "
                        "\\+ vs not, ints vs floats, lists crossing the hash cut-off of 10 elements, nested compounds, Var)",
                        "string leaves come from a fixed pool (hash() of a symbolic string is realised by CrossHair)",
